@@ -139,6 +139,9 @@ pub struct Cfg {
     pub wire_head: usize,
     /// enable stateless resets on the server (keyed token generator); off = s2n-quic default
     pub sreset: bool,
+    /// rewrite the transport-parameter block an endpoint DECLARES: `<ep>:<mutation>[,<ep>:<mutation>…]`
+    /// (see tpw.rs for the mutation grammar; "" = nothing is rewritten)
+    pub tp_mut: String,
 }
 
 impl Default for Cfg {
@@ -201,6 +204,7 @@ impl Default for Cfg {
             sclose_at_ms: 0,
             wire_head: 48,
             sreset: false,
+            tp_mut: String::new(),
         }
     }
 }
@@ -324,6 +328,10 @@ impl Cfg {
                 "sclose_at_ms" => c.sclose_at_ms = n()?,
                 "wire_head" => c.wire_head = n()? as usize,
                 "sreset" => c.sreset = n()? != 0,
+                "tp_mut" => {
+                    crate::tpw::parse(v, "c")?;
+                    c.tp_mut = v.to_string();
+                }
                 _ => return Err(format!("unknown key {k}")),
             }
         }
